@@ -41,6 +41,7 @@
 
 #include "cmi_process.h"
 #include "cmi_resourcebase.h"
+#include "cmi_verif.h"
 
 /* The memory layout of an entry */
 struct entry_peek {
@@ -142,12 +143,14 @@ int64_t cmb_resourceguard_wait(struct cmb_resourceguard *rgp,
                                               priority);
     cmb_assert_debug(key == (uint64_t)pp);
     cmi_process_add_awaitable(pp, CMI_PROCESS_AWAITABLE_RESOURCE, rgp);
+    CMI_VERIF_EMIT("GuardEnq", 0u, rgp, pp, priority, entry_time);
     cmb_logger_info(stdout, "Waits for %s", rgp->guarded_resource->name);
 
     /* Yield to the dispatcher, collect the return signal value when resumed */
     const int64_t sig = (int64_t)cmi_coroutine_yield(NULL);
 
     /* Back here, possibly much later. Return the signal that resumed us. */
+    CMI_VERIF_EMIT("GuardLeave", 0u, rgp, pp, sig, 0.0);
     if (sig != CMB_PROCESS_SUCCESS) {
         cmi_hashheap_cancel((struct cmi_hashheap *)rgp, key);
     }
@@ -166,6 +169,7 @@ static void wakeup_event_resource(void *vp, void *arg)
     cmb_assert_debug(vp != NULL);
 
     struct cmb_process *pp = (struct cmb_process *)vp;
+    CMI_VERIF_EMIT("Wake.resource", 0u, pp, NULL, (int64_t)arg, 0.0);
     cmb_logger_info(stdout, "Wakes %s signal %" PRIi64,
                 pp->name, (int64_t)arg);
 
@@ -214,6 +218,7 @@ bool cmb_resourceguard_signal(struct cmb_resourceguard *rgp)
             /* Yes, pull the process off the queue and schedule wakeup event */
             cmb_logger_info(stdout, "Scheduling wakeup event for %s", pp->name);
             (void)cmi_hashheap_dequeue(hp);
+            CMI_VERIF_EMIT("GuardGrant", 0u, rgp, pp, 0, 0.0);
             const double time = cmb_time();
             const int64_t priority = cmb_process_priority(pp);
             (void)cmb_event_schedule(wakeup_event_resource, pp,
@@ -253,6 +258,7 @@ bool cmb_resourceguard_cancel(struct cmb_resourceguard *rgp,
     const uint64_t key = (uint64_t)pp;
     if (cmi_hashheap_is_enqueued(hp, key)) {
         (void)cmi_hashheap_cancel(hp, key);
+        CMI_VERIF_EMIT("GuardCancel", 0u, rgp, pp, 0, 0.0);
         const double time = cmb_time();
         const int64_t priority = cmb_process_priority(pp);
         (void)cmb_event_schedule(wakeup_event_resource, pp,
@@ -279,6 +285,7 @@ bool cmb_resourceguard_remove(struct cmb_resourceguard *rgp,
     const uint64_t key = (uint64_t)pp;
     if (cmi_hashheap_is_enqueued(hp, key)) {
         (void)cmi_hashheap_cancel(hp, key);
+        CMI_VERIF_EMIT("GuardRemove", 0u, rgp, pp, 0, 0.0);
         ret = true;
     }
 
